@@ -35,6 +35,49 @@ def pdu_classes(prog):
 
 
 # ------------------------------------------------------------------------------ R1
+def _len_by_folding(prog, c, enc, ln):
+    """-> None when len(encode()) == __len__() for every subset of set / unset attributes, else what differs or 'cannot fold ...'"""
+    import itertools
+    from ..q import fold_block, NotConst
+    attrs = sorted(set(norm(x) for fn in (enc, ln) for x in ast.walk(fn.node)
+                       if isinstance(x, ast.Attribute) and isinstance(x.value, ast.Name) and x.value.id == 'self' and isinstance(x.ctx, ast.Load)
+                       and not isinstance(getattr(x, '_parent', None), ast.Call) or False)) if False else None
+    names = set()
+    for fn in (enc, ln):
+        calls_ = set(id(x.func) for x in ast.walk(fn.node) if isinstance(x, ast.Call))
+        for x in ast.walk(fn.node):
+            if isinstance(x, ast.Attribute) and isinstance(x.value, ast.Name) and x.value.id == 'self' and id(x) not in calls_:
+                names.add(norm(x))
+    names = sorted(n_ for n_ in names if n_ not in ('self.dsap', 'self.ssap', 'self.ptype', 'self.header_size'))
+    if len(names) > 8:
+        return 'cannot fold: %d attributes' % len(names)
+    tlv = TlvFold(prog)
+
+    def param_encode(t, v):
+        r = tlv.encode(t, v)
+        if r[0] != 'return':
+            raise NotConst('Parameter.encode(%r, %r) -> %r' % (t, v, r))
+        return r[1]
+
+    def body(fn):
+        return [st for st in fn.node.body if not (isinstance(st, ast.Expr) and isinstance(st.value, ast.Constant))]
+    for present in itertools.product((False, True), repeat=len(names)):
+        env = {n_: (1 if p_ else None) for n_, p_ in zip(names, present)}
+        env.update({'self.dsap': 0, 'self.ssap': 0, 'self.ptype': 1, 'self.header_size': 2})
+        env.update({'Parameter.' + k_: v_ for k_, v_ in tlv.consts.items()})
+        env['__calls__'] = {'self.encode_header': lambda: b'\x00\x40', 'Parameter.encode': param_encode}
+        try:
+            a = fold_block(body(enc), dict(env))
+            b = fold_block(body(ln), dict(env))
+        except (NotConst, TypeError, KeyError, IndexError, ValueError) as e:
+            return 'cannot fold encode() / __len__(): %s: %s' % (type(e).__name__, e)
+        if a[0] != 'return' or b[0] != 'return':
+            return 'cannot fold: encode() %s, __len__() %s' % (a[0], b[0])
+        if len(a[1]) != b[1]:
+            return 'with %s set, encode() gives %d octets and __len__() says %d' % ([n_ for n_, p_ in zip(names, present) if p_], len(a[1]), b[1])
+    return None
+
+
 def rule_len(report, prog, res, rule='C11-R1', floor=15):
     le = LenEval(prog, res)
     classes = pdu_classes(prog)
@@ -52,7 +95,16 @@ def rule_len(report, prog, res, rule='C11-R1', floor=15):
                 raise Unsupported('__len__ with %d returns' % len(rets))
             b = le.intform(rets[0].value, ln, Ctx(c))
         except Unsupported as e:
-            raise AnalysisError('%s: cannot derive symbolic length for %s: %s' % (rule, c.qname, e))
+            # the symbolic length does not follow this spelling: fold encode() and __len__() instead, for every way of leaving each
+            # attribute they read unset (None) or set (a small value), with the TLV encoder and the header modelled
+            why = _len_by_folding(prog, c, enc, ln)
+            if why is None:
+                report.ok(rule, k, enc.loc(), detail='decided by folding encode() and __len__() over the attribute subsets (symbolic form: %s)' % e)
+                continue
+            if why.startswith('cannot fold'):
+                raise AnalysisError('%s: cannot derive symbolic length for %s: %s; %s' % (rule, c.qname, e, why))
+            report.fail(rule, k, enc.loc(), '%s: %s' % (c.qname, why))
+            continue
         report.check(a == b, rule, k, ln.loc(),
                      '%s.__len__ disagrees with the encoded length: encode() yields %s but __len__ returns %s'
                      % (c.name, show(a), show(b)), detail='%s' % show(a))
